@@ -65,7 +65,8 @@ class RecursiveSigner:
         context: str = None,
     ):
         """Initialize the RecursiveSigner."""
-        self.envelope = envelope
+        # cbor2 >= 6 decodes the content of a tag as an immutable mapping - work on a mutable copy
+        self.envelope = cbor2.CBORTag(envelope.tag, dict(envelope.value))
         self.envelope_name = envelope_name
         self.sign_script = sign_script
         self.kms_script = kms_script
